@@ -66,7 +66,7 @@ impl Method for Derivative {
 
 	fn new(length: Self::Params, value: &Self::Input) -> Result<Self, Error> {
 		match length {
-			0 => Err(Error::WrongMethodParameters),
+			0 | PeriodType::MAX => Err(Error::WrongMethodParameters),
 			length => Ok(Self {
 				divider: (length as ValueType).recip(),
 				window: Window::new(length, *value),
